@@ -124,6 +124,17 @@ func famFrag(w *World) {
 	if capc > 0 && capc < 200 {
 		capc += scn(50)
 	}
+	// a third of the fault-free runs are "plain": capacities that hold the headers and no
+	// early-closing consumer, so that every call is REQUIRED to succeed
+	plainClass := !corrupt && scnChance(1, 3)
+	if plainClass {
+		if capc > 0 && capc < 257 {
+			capc = 257
+		}
+		if caps2 > 0 && caps2 < 257 {
+			caps2 = 257
+		}
+	}
 	viaRelay := scnChance(1, 3)
 	co := tchannel.ConnectionOptions{ChecksumType: cs}
 	fh := &fragHandler{w: w}
@@ -189,6 +200,13 @@ func famFrag(w *World) {
 		if scnChance(1, 2) {
 			rp3, crp3 = scn(3), scn(3) // each argument is read its own way
 		}
+		if plainClass {
+			for _, p := range []*int{&rp, &crp, &rp3, &crp3} {
+				if *p == 1 {
+					*p = 2
+				}
+			}
+		}
 		// sizes: the request header of this call, as the independent codec lays it out
 		cmdProbe := CallSpec{Tag: tag, Mode: "echo", Code: hwp, Rs2: -1, Rs3: -1}
 		cmdLen := len((&CallRec{Spec: cmdProbe}).cmd()) + 1
@@ -251,8 +269,33 @@ func famFrag(w *World) {
 		w.corruptPlanned = true
 		w.planCorruption()
 	}
+	// In a run without any fault, with frame capacities that can hold the message headers and
+	// no consumer closing an argument early (the pattern that may legitimately end in an
+	// error), every call must simply succeed - whatever the write, flush and read patterns.
+	plain := w.NoFault && (capc == 0 || capc >= 257) && (caps2 == 0 || caps2 >= 257)
+	for _, r := range w.Calls {
+		var a, b, c, d int
+		fmt.Sscanf(r.Spec.Method, "e%1d%1d-", &a, &b)
+		c, d = r.Spec.ReadPat, r.Spec.ReadPat3-1
+		if a == 1 || b == 1 || c == 1 || d == 1 {
+			plain = false
+		}
+	}
 	for _, r := range w.Calls {
 		w.Call(r)
+		if plain {
+			w.eval("C01.plain-call-succeeds")
+			slow := false
+			for _, n := range w.Nodes {
+				if n.LogMsgs["Dropping call due to slow connection."] > 0 {
+					slow = true // a relay's send buffer (512 frames) overflowed under a burst of tiny frames: dropped by design
+				}
+			}
+			if r.Err != nil && r.StallIn == 0 && !slow {
+				w.violate("C01", "call-failed-without-fault", "call %s (%s) failed with %s in a run without faults, with frame capacities %d/%d and every argument read to its end: write pattern %d (client) / %d (server)",
+					r.Spec.Tag, r.Spec.Via, errStr(r.Err), capc, caps2, r.Spec.WritePat, r.Spec.Code)
+			}
+		}
 		if r.CorruptRes && r.Err == nil {
 			w.violate("C02", "corruption-undetected", "call %s: a byte of the response was altered in transit, yet the caller read the response to the end without error", r.Spec.Tag)
 		}
